@@ -8,6 +8,7 @@
 -/
 import IbicusModel.Lemmas.C03
 import IbicusModel.Lemmas.GenDebiasers
+import IbicusModel.Model.InferredDates
 
 namespace Props.C03
 open Model.Stats Model.Family Model.Debiasers Model.Skeleton Model.Windows Lemmas.Stats Lemmas.Family Lemmas.C03
@@ -545,5 +546,31 @@ theorem dc_identity_rw (dt : DeltaType) (L S h : Int) (dO dH : List Int) (obs H 
 example : applyLocationRW (winOf (linearScaling .additive)) 5 3 [2, 3, 4] [2, 3, 4] [2, 3, 4, 2, 3, 4]
     [1, 2, 4] [1, 2, 4] [10, 20, 30, 40, 50, 60] = .ok ([10, 20, 30, 40, 50, 60].map some) :=
   ls_add_fixed_point_rw 5 3 1 _ _ _ _ (by decide) (by decide) (by decide) (by decide) (by decide) (by decide)
+
+/-- DeltaChange in running-window mode WITHOUT time information for the model pair (`time_cm_hist`, `time_cm_future` omitted):
+    the library infers the calendar of each series from that series' LENGTH only (`Model.InferredDates.resolve none
+    inferredDoy n`: `n` consecutive days from 1950-01-01 — the documented "the first value of obs, cm_hist and cm_future is
+    a January 1st"; tied to the code by `Gen.Contract.infer_time` and the driver `DrvInferredDates`).  An unchanged model
+    (`cm_future = cm_hist` value for value, hence of equal length) therefore sees equal day-of-year windows and `obs` is
+    returned, whatever the dates of `obs` (`dO`: given or inferred) and for series of any length, whole years or not. -/
+theorem dc_identity_rw_inferred (dt : DeltaType) (L S h : Int) (dO : List Int) (obs H F : List Rat) (hF : F = H)
+    (hS : S = 2 * h + 1) (hh : 0 ≤ h) (hSL : S ≤ L) (hlen : dO.length = obs.length) (hr : ∀ d ∈ dO, 1 ≤ d ∧ d ≤ 366)
+    (hne : ∀ c ∈ useCenters S dO,
+      take H (idxWindow L (Model.InferredDates.resolve none Model.InferredDates.inferredDoy H.length) c) ≠ [])
+    (hm : dt = .multiplicative → ∀ c ∈ useCenters S dO,
+      mean (take H (idxWindow L (Model.InferredDates.resolve none Model.InferredDates.inferredDoy H.length) c)) ≠ 0) :
+    applyLocationDC (winOf (deltaChange dt)) L S dO
+      (Model.InferredDates.resolve none Model.InferredDates.inferredDoy H.length)
+      (Model.InferredDates.resolve none Model.InferredDates.inferredDoy F.length) obs H F = .ok (obs.map some) := by
+  subst hF
+  exact dc_identity_rw dt L S h dO _ obs F hS hh hSL hlen hr hne hm
+
+-- non-vacuity: obs on days 2..4, an undated model series of three steps (inferred days of year 1, 2, 3), S = 3, L = 5
+example : applyLocationDC (winOf (deltaChange .additive)) 5 3 [2, 3, 4]
+    (Model.InferredDates.resolve none Model.InferredDates.inferredDoy 3)
+    (Model.InferredDates.resolve none Model.InferredDates.inferredDoy 3) [10, 20, 30] [1, 2, 4] [1, 2, 4]
+    = .ok ([10, 20, 30].map some) :=
+  dc_identity_rw_inferred .additive 5 3 1 _ _ _ _ rfl (by decide) (by decide) (by decide) (by decide) (by decide)
+    (by decide) (by intro h; cases h)
 
 end Props.C03
